@@ -584,6 +584,14 @@ __find_trno(const struct zif_s z[static 1U], int32_t t, int min, int max)
 	/* not reached */
 }
 
+static inline int32_t
+__clamp(time_t t)
+{
+/* the table is 32 bits wide, behind its ends things stay what they were,
+ * a time stamp from 2038 on is not one of 1901 */
+	return t > INT_MAX ? INT_MAX : t < INT_MIN ? INT_MIN : (int32_t)t;
+}
+
 DEFUN inline int
 zif_find_trans(zif_t z, time_t t)
 {
@@ -592,7 +600,7 @@ zif_find_trans(zif_t z, time_t t)
 	int max = zif_ntrans(z);
 	int min = 0;
 
-	return __find_trno(z, t, min, max);
+	return __find_trno(z, __clamp(t), min, max);
 }
 
 static struct zrng_s
@@ -635,13 +643,14 @@ zif_find_zrng(zif_t z, time_t t)
 	int max = zif_ntrans(z);
 	int min = 0;
 
-	return __find_zrng(z, t, min, max);
+	return __find_zrng(z, __clamp(t), min, max);
 }
 
 static int32_t
-__offs(struct zif_s z[static 1U], int32_t t)
+__offs(struct zif_s z[static 1U], time_t t0)
 {
-/* return the offset of T in Z and cache the result. */
+/* return the offset of T0 in Z and cache the result. */
+	const int32_t t = __clamp(t0);
 	int min;
 	size_t max;
 
